@@ -8,6 +8,8 @@
 import json, os, shutil, subprocess, sys
 
 PY = "/venv/bin/python"
+ROOT = os.environ.get("SEED_ROOT", "/tmp/wt")  # where the sub-agents' scratch worktrees are
+TAG = os.environ.get("SEED_TAG", "")  # e.g. "r2-" for the second round
 
 
 def sh(cmd, cwd, timeout=900):
@@ -16,7 +18,7 @@ def sh(cmd, cwd, timeout=900):
 
 
 def verify(ID, n):
-    wt = f"/tmp/wt/{ID}"
+    wt = f"{ROOT}/{ID}"
     out = f"{wt}/out/{n}"
     res = {"patch_applies": False, "suite": None, "demo_with_change": None, "demo_without_change": None}
     sh(["git", "checkout", "--", "."], wt)
@@ -50,11 +52,11 @@ def main():
         if not r.get("ok"):
             print("NOT KEPT: verification failed")
             return 1
-        dst = f"/verif/seeded/{ID}-{n}"
+        dst = f"/verif/seeded/{ID}-{TAG}{n}"
         os.makedirs(dst, exist_ok=True)
         for f in ("patch.diff", "demo.py", "notes.txt"):
-            if os.path.exists(f"/tmp/wt/{ID}/out/{n}/{f}"):
-                shutil.copy(f"/tmp/wt/{ID}/out/{n}/{f}", dst)
+            if os.path.exists(f"{ROOT}/{ID}/out/{n}/{f}"):
+                shutil.copy(f"{ROOT}/{ID}/out/{n}/{f}", dst)
         meta = {"property": ID, "needs": sys.argv[4] if len(sys.argv) > 4 else "",
                 "origin": "fresh sub-agent given only the property text and a scratch worktree",
                 "confirmed": {"suite_with_change": r["suite"], "demo_exit_with_change": r["demo_with_change"],
